@@ -39,6 +39,31 @@ func deepen(q B) B {
 	return t
 }
 
+// heavyHarness: harnesses whose cost grows steeply with the directory shape
+// (state-changing steps, crash points, schedules). Their thorough tier keeps the
+// quick shapes and adds one more format-version pattern (or content profile).
+func heavyHarness(name string) bool {
+	for _, p := range []string{"h_step.", "h_helpers.", "h_backup.", "h_crash.", "h_conc.", "h_damage."} {
+		if len(name) >= len(p) && name[:len(p)] == p {
+			return true
+		}
+	}
+	return false
+}
+
+func deepenHeavy(q B) B {
+	t := B{}
+	for k, v := range q {
+		t[k] = v
+	}
+	if v, ok := t["vers"]; ok && v < 4 {
+		t["vers"] = v + 1
+	} else if v, ok := t["profs"]; ok && v < 2 {
+		t["profs"] = v + 1
+	}
+	return t
+}
+
 func plus1(name string) func(map[string]int) int {
 	return func(b map[string]int) int { return b[name] + 1 }
 }
